@@ -534,7 +534,65 @@ def run(report, p):
                             continue
                         else:
                             raise AnalysisError(f"verify -dh: line {call.lineno}: a format put on the list of formats to verify has a provenance that is not understood ({sig(lf)})")
+    # ... and the list is never empty when the verification starts: every path to its use passes an append, or leaves an emptiness test on the non-empty side
+    for ln in sorted(fmt_lists):
+        adds = {g.node_for(c).id for c, tg in p.calls[dh.qual] if isinstance(c.func, ast.Attribute) and c.func.attr in ("append", "extend", "insert") and isinstance(c.func.value, ast.Name) and c.func.value.id == ln and not any(isinstance(a, (ast.For, ast.While)) for a in _anc(c))}
+        uses = [g.node_for(n) for n in walk_no_nested(dh.node) if isinstance(n, ast.Call) and norm(n.func) == "sorted" and n.args and isinstance(n.args[0], ast.Name) and n.args[0].id == ln]
+
+        def follow(a, b, lab, ln=ln):
+            if a.kind == "test" and lab in ("T", "F"):
+                if (ln, lab) in _atomic(a.ast, lab) and lab == "T":
+                    return False  # `if L:` taken on the true side: non-empty
+                if (ln, "T") in _atomic(a.ast, lab) or (f"len({ln}) == 0", "F") in _atomic(a.ast, lab) or (f"len({ln}) > 0", "T") in _atomic(a.ast, lab):
+                    return False
+            return True
+
+        reach = g.reachable_from([g.entry], avoid=adds, follow=follow)
+        for u in uses:
+            r7.instance(dh, u.ast, f"verification starts from sorted({ln})")
+            r7.check(u.id not in reach, dh, u.ast, f"the list of formats to verify can be empty when the verification starts (a path reaches `sorted({ln})` without any append): nothing is compared and verify -dh exits 0 whatever the tree looks like", construct=f"verify-format list {ln} can be empty")
     r7.check(True, dh, dh.node, "")
+
+    # ------------------------------------------------------------------ R9.8
+    r8 = report.rule(
+        "R9.8",
+        "exit 12 needs a failure booked for EVERY format on the verify list, and the root comparison is where each format gets its verdict: the loops that collect the formats and "
+        "that compare the root hashes go through every generation and every recorded root entry (no slice, filter or truncation; order does not matter)",
+        3,
+    )
+
+    def _strip_order(it):
+        while True:
+            if isinstance(it, ast.Call) and norm(it.func) in ("reversed", "sorted", "list", "tuple") and len(it.args) == 1:
+                it = it.args[0]
+            elif isinstance(it, ast.Subscript) and isinstance(it.slice, ast.Slice) and it.slice.lower is None and it.slice.upper is None:
+                it = it.value
+            else:
+                return it
+
+    n_root_loops = 0
+    for lp in [n for n in walk_no_nested(dh.node) if isinstance(n, ast.For)]:
+        base = _strip_order(lp.iter)
+        kinds = set()
+        for o in pr.origins(base, dh):
+            for a in alts(o):
+                if a[0] == "attr" and a[2] == "hash_lists":
+                    kinds.add("generations")
+                if a[0] == "attr" and a[2] == "hash_entries" and any(x[0] == "attr" and x[2] == "root_media_hash" for x in subterms(a)):
+                    kinds.add("root entries")
+        # a sliced / filtered view keeps the provenance of its base: look at the base expression too
+        txt = norm(lp.iter)
+        if not kinds and ("hash_lists" in txt):
+            kinds.add("generations")
+        if not kinds and ("root_media_hash.hash_entries" in txt or "root_hash_entries" in txt):
+            kinds.add("root entries")
+        if not kinds:
+            continue
+        n_root_loops += 1
+        r8.instance(dh, lp, f"for {norm(lp.target)} in {txt[:50]} ({', '.join(sorted(kinds))})")
+        r8.check(is_plain_iter(p, base), dh, lp.iter, f"`for {norm(lp.target)} in {txt[:50]}` does not go through all {' / '.join(sorted(kinds))}: a format whose root entry is passed over never gets a failure booked, so `every format failed` cannot hold and a changed tree exits 0", construct=f"partial loop over {' / '.join(sorted(kinds))}: {txt[:40]}")
+    if n_root_loops < 3:
+        raise AnalysisError(f"verify -dh: the loops over generations / root entries (format collection and root comparison) were not found ({n_root_loops})")
 
     # ---- rules shared with other properties (same mechanism, same rule, reported under every property it can break)
     include_rules(report, p, 'c03', ['R3.11'], 'verify -dh reports every mismatch through the logger before it decides its exit code')
